@@ -7,7 +7,7 @@ from .c05 import same_value
 
 ID = "C06"
 LEVEL = "proof"
-PROPS_MODULE = "SymmModel.Props.C06All"
+PROPS_MODULE = "SymmModel.Props.C06All2"
 THEOREMS = [
     "SymmModel.C06.dropMisaligned_blocks_fst",
     "SymmModel.C06.dropMisaligned_blocks_snd",
@@ -25,10 +25,18 @@ THEOREMS = [
     "SymmModel.C06.tensordotFused_matrix_elem",
     "SymmModel.C06.fused_product_elem",
     "SymmModel.C06.tensordotA_modes_agree",
-    "SymmModel.C06.tensordotFused_empty_alignment"
+    "SymmModel.C06.tensordotFused_empty_alignment",
+    "SymmModel.C06.tensordotA_kind_blind",
+    "SymmModel.C06.tensordotA_synced_modes",
+    "SymmModel.C06.tensordotF_modes_agree",
+    "SymmModel.C06.tensordotF_to_blockwise",
+    "SymmModel.C06.tensordotF_refines_graded_any_mode",
+    "SymmModel.C06.tdotF_axes_perm_any_mode",
+    "SymmModel.C06.tdotF_pretranspose_any_mode",
+    "SymmModel.C06.tdotF_swap_any_mode"
 ]
-LEAN_FILES = ["SymmModel.Props.C06", "SymmModel.Proofs.TdotLemmas", "SymmModel.Proofs.Accum", "SymmModel.Proofs.BlkLemmas", "SymmModel.Props.C06b", "SymmModel.Props.C06All", "SymmModel.Proofs.TdotFused1", "SymmModel.Proofs.TdotFused2", "SymmModel.Proofs.TdotFused3", "SymmModel.Proofs.TdotFused4", "SymmModel.Proofs.TdotFused5", "SymmModel.Proofs.TdotFused6", "SymmModel.Proofs.TdotFused7"]
-PLANNED = ["fused path with an empty left or right group (vector / scalar results)", "fused mode with no contracted axes", "tensordot_fuse_commute (fusing free legs before vs after)", "fermionic versions"]
+LEAN_FILES = ["SymmModel.Props.C06", "SymmModel.Proofs.TdotLemmas", "SymmModel.Proofs.Accum", "SymmModel.Proofs.BlkLemmas", "SymmModel.Props.C06b", "SymmModel.Props.C06All", "SymmModel.Proofs.TdotFused1", "SymmModel.Proofs.TdotFused2", "SymmModel.Proofs.TdotFused3", "SymmModel.Proofs.TdotFused4", "SymmModel.Proofs.TdotFused5", "SymmModel.Proofs.TdotFused6", "SymmModel.Proofs.TdotFused7", "SymmModel.Proofs.TdotFused8", "SymmModel.Proofs.TdotFused9", "SymmModel.Props.C06c", "SymmModel.Props.C06All2"]
+PLANNED = ["fused path with an empty left or right group (vector / scalar results) and fused mode with no contracted axes", "OwnBox = index-table box (removes the OwnBox hypotheses of the any-mode corollaries)", "S7 for fused/auto (needs tensordotF congruence for SameView operands)", "tensordot_fuse_commute (fusing free legs before vs after)"]
 RULE = ("random contractible pairs (abelian and fermionic, even/odd parity, all symmetries, sparse operands whose "
         "present sectors differ, operands with a pre-fused free leg); modes fused/blockwise/auto compared with each "
         "other, with the Lean model, and with the explicit route align -> fuse contracted legs on both operands -> "
